@@ -1,6 +1,5 @@
 """C25 — a wallet never runs two actions at the same time."""
 META = {
-    "disabled": True,
     "level": "model_checking",
     "text": "TLC exhaustively checks the walletDispatcher contract model (concurrent callers, two wallets plus one with an unmarshallable "
             "key, actions of arbitrary duration and outcome): at most one executing action per wallet, refusal exactly when the wallet "
@@ -59,14 +58,14 @@ def run(ctx):
         seqs = rnd.sample(seqs, min(len(seqs), 600))
     go = ctx.gotest(PKG, "^TestVerif_C25_", ["c25_test.go"],
                     inputs={"sequences.ndjson": seqs, "schedules.ndjson": sched},
-                    env={"VERIF_ROUNDS": ctx.pick(120, 1200), "VERIF_AVAIL": ctx.pick(24, 200)},
+                    env={"VERIF_ROUNDS": ctx.pick(120, 1200), "VERIF_AVAIL": ctx.pick(24, 200), "VERIF_HANDOFF": ctx.pick(30, 200)},
                     label="dispatcher", timeout=ctx.pick(900, 3000))
     ctx.absorb(go)
-    for name in ("seq", "hazard", "hammer", "avail"):
+    for name in ("seq", "hazard", "handoff", "hammer", "avail"):
         if name not in go.reports:
             ctx.broken("harness report %s missing" % name)
     hz = go.reports["hazard"]
-    if (hz.get("counters") or {}).get("realized", 0) < 5:
+    if (hz.get("counters") or {}).get("realized", 0) < 5 and not ctx.violations:
         ctx.broken("no hazard schedule could be driven at all (gate broken?)")
     # 4. random concurrent runs validated against the contract model
     tp = ctx.trace_path(go, "trace_dispatcher")
